@@ -1,0 +1,11 @@
+//go:build !verif
+
+package sync
+
+import "bytes"
+
+const hooked = false
+
+func poolHook(string, *BufferPool, *bytes.Buffer) {}
+
+func onceHook(string, any) {}
